@@ -43,7 +43,7 @@ POOL: dict[str, t.Union[str, bytes]] = {
     's_nan': 'nan', 's_uni': 'héllo wörld ✓ \U0001f600', 's_ml': 'line1\nline2\n',
     's_sp': '  padded  ', 's_yes': 'yes', 's_null': 'null', 's_tilde': '~', 's_1e3': '1e3',
     's_colon': ': #', 's_t': 't', 's_kind': 'kind', 's_x': 'x', 's_y': 'y', 's_z': 'z',
-    's_w': 'w', 's_nfrac': '-3/4', 's_abc': 'abc', 's_v1': 'v1', 's_v2': 'v2', 's_v3': 'v3',
+    's_w': 'w', 's_v': 'v', 's_W': 'W', 's_X': 'X', 's_ab_cd': 'ab_cd', 's_abCd': 'abCd', 's_AbCd': 'AbCd', 's_ab_cd_k': 'ab-cd', 's_AB_CD': 'AB_CD', 's_nfrac': '-3/4', 's_abc': 'abc', 's_v1': 'v1', 's_v2': 'v2', 's_v3': 'v3',
     'b_x': b'xyz', 'b_empty': b'', 'b_re': b'a+', 'b_badre': b'(',
 }
 _by_text: dict[t.Union[str, bytes], str] = {}
@@ -596,7 +596,8 @@ def make_class(C: dict, sp: int = 0) -> type:
         return cls
     ann: dict = {}
     ns: dict = {}
-    for f in C['fs']:
+    spell = C.get('spell')
+    for fi, f in enumerate(C['fs']):
         n = text(f['n'])
         ann[n] = concretise_type(f['t'], sp)
         kw: dict = {}
@@ -609,13 +610,25 @@ def make_class(C: dict, sp: int = 0) -> type:
         if f['kw'] == 'T':
             kw['kw_only'] = True
         ins = [text(x) for x in f['ins']]
-        if ins != [n]:
-            if ins[0] == n:
-                kw['aliases'] = tuple(ins[1:])
-            else:
-                kw['in_names'] = tuple(ins)
-        if text(f['out']) != n:
-            kw['out_name'] = text(f['out'])
+        if spell is not None:
+            # written as the spelling says; the names it should yield are f['ins'] / f['out'] (derived by the spec)
+            fsp = spell['flds'][fi]
+            if fsp['k'] == 'rename':
+                kw['rename'] = text(fsp['to'])
+            elif fsp['k'] == 'aliases':
+                kw['aliases'] = tuple(text(x) for x in fsp['names'])
+            elif fsp['k'] == 'in_names':
+                kw['in_names'] = tuple(text(x) for x in fsp['names'])
+            if fsp['outname'] != '':
+                kw['out_name'] = text(fsp['outname'])
+        else:
+            if ins != [n]:
+                if ins[0] == n:
+                    kw['aliases'] = tuple(ins[1:])
+                else:
+                    kw['in_names'] = tuple(ins)
+            if text(f['out']) != n:
+                kw['out_name'] = text(f['out'])
         if f['ex'] == 'T':
             kw['exclude'] = True
         if f.get('init', 'T') == 'F':
@@ -643,6 +656,15 @@ def make_class(C: dict, sp: int = 0) -> type:
     opts = {'in_format': tuple(sorted(inf)), 'out_format': C['outf']}
     if C['extra'] == 'T':
         opts['allow_extra'] = True
+    if spell is not None:
+        csp = spell['cls']
+        if csp['how'] == 'rename':
+            opts['rename'] = csp['out']
+        elif csp['how'] == 'in_out':
+            if csp['ins']:
+                opts['in_rename'] = tuple(csp['ins']) if len(csp['ins']) > 1 or sp % 2 == 0 else csp['ins'][0]
+            if csp['out'] != 'none':
+                opts['out_rename'] = csp['out']
     cls = types.new_class(C['name'], (pane.PaneBase,), opts, lambda d: d.update(ns))
     HOOK_COUNTERS[cls] = counter
     FACTORIES[cls] = {text(f['n']): _FACT_OBJS[id(ns[text(f['n'])])] for f in C['fs']
